@@ -203,9 +203,17 @@ fn run_thread(wk: &Wk<'_>, set: &FSet, prog: &SetProg, ops: &[SOp], recs: &mut V
             }
             SOp::Serialize(kind) => {
                 let inv = wk.op_start();
-                let js = if kind % 2 == 0 { serde_json::to_string(set) } else { serde_json::to_string(&set.pin()) };
+                // kinds 0 / 1: JSON text of the set / of a pinned reference; 2 / 3: the same through
+                // a format that trusts the announced length
+                let keys: Result<Vec<u32>, String> = if kind % 4 < 2 {
+                    let js = if kind % 2 == 0 { serde_json::to_string(set) } else { serde_json::to_string(&set.pin()) };
+                    js.map_err(|e| e.to_string()).and_then(|j| serde_json::from_str::<Vec<u32>>(&j).map_err(|e| format!("{} ({:?})", e, j)))
+                } else {
+                    let d = if kind % 2 == 0 { crate::strictser::to_doc(set) } else { crate::strictser::to_doc(&set.pin()) };
+                    d.and_then(|d| d.check().map(|_| d.entries.iter().map(|e| e.0 as u32).collect()))
+                };
                 let resp = wk.op_end();
-                match js.map_err(|e| e.to_string()).and_then(|j| serde_json::from_str::<Vec<u32>>(&j).map_err(|e| format!("{} ({:?})", e, j))) {
+                match keys {
                     Ok(keys) => walks.push((me, inv, resp, format!("serialisation of the set{}", if kind % 2 == 0 { "" } else { " (pinned reference)" }), keys)),
                     Err(e) => faults.push(format!("C19: serialising the set gave a document that does not parse as a list of keys: {}", e)),
                 }
@@ -513,7 +521,7 @@ fn sop_strategy(hot: u16, walks: bool) -> BoxedStrategy<SOp> {
         1 => (1u16..40).prop_map(SOp::Reserve),
         1 => Just(SOp::Len),
         if walks { 5 } else { 0 } => (0u8..3).prop_map(SOp::IterAll),
-        if walks { 4 } else { 0 } => (0u8..2).prop_map(SOp::Serialize),
+        if walks { 4 } else { 0 } => (0u8..4).prop_map(SOp::Serialize),
     ]
     .boxed()
 }
